@@ -130,7 +130,7 @@ fn plan(p: &mut Plan<'_>) {
             ));
             p.part(bufsim::recv::RecvBufSim { exhaustive: true }, n, n, "complete enumeration of short fragment/read histories over a 5-byte stream; non-trivial = at least one overlapping or duplicate fragment and at least one read; distinct = hash of the (offset,len,read) history");
             p.part(bufsim::recv::RecvBufSim { exhaustive: false }, 300_000, 30_000_000, "seeded fragment histories (fresh, duplicate, sub-/super-slice, empty, straddling or below the read cursor, gaps) over content up to 64 KiB interleaved with try_read/try_next; non-trivial = some fragment overlapped already-covered bytes and some read happened; distinct = hash of the op history");
-            p.assumptions = vec!["fragments are slices of one underlying byte sequence (the property's precondition)", "an empty fragment does not raise the highest offset seen"];
+            p.assumptions = vec!["fragments are slices of one underlying byte sequence (the property's precondition)", "the highest offset seen includes the position of an empty fragment (a lone FIN); RFC 9000 4.1 charges flow control with offset + length also for length 0"];
         }
         "C09" => {
             p.part(bufsim::send::SendBufSim, 300_000, 30_000_000, "seeded histories of write/extend/pick_up/ack/loss/resend_flighting with swarm-drawn op weights, then a draining packetiser; ack and loss ranges are picked ranges, sub-ranges, spans or arbitrary ranges below sent(); non-trivial = at least one retransmission was picked; distinct = hash of the op/result history");
@@ -202,7 +202,7 @@ fn plan(p: &mut Plan<'_>) {
             p.assumptions = vec!["loss threshold judged with 0.2% tolerance against 9/8 of the larger of smoothed and latest RTT, at least 1 ms", "RFC 9002 7.6 duration-based persistent congestion is accepted as a legitimate second reduction", "ack-eliciting-but-not-in-flight packets are not generated (unreachable through qbase::packet)"];
         }
         "C04" => {
-            p.part(byzsim::ByzSim, 4_000, 400_000, "one forged but well-formed frame (or packet number) per case after a short legitimate history (0..200 ops) on the real handlers in the stack's dispatch order: ACK into ArcCC / rcvd-journal / sent-journal, packet-number jumps into decode_pn / on_rcvd_pn / ACK generation, NEW_CONNECTION_ID / RETIRE_CONNECTION_ID / active_connection_id_limit into the cid managers on a shared router, stream / flow-control / stream-count frames into DataStreams + FlowController, CRYPTO offsets into the crypto stream; the field under test takes values from {0, 1, state boundary +-1, 2^8..2^22 ladder, 2^31+-1, 2^62-1}; per handler the bytes allocated (exact) and the thread CPU time are metered along the ladder with state and frame size constant; expected error kinds from an RFC 9000 reference model of the state; non-trivial = a history preceded the forged frame; distinct = hash of field, answers, emitted frames per probe");
+            p.part(byzsim::ByzSim, 20_000, 2_000_000, "one forged but well-formed frame (or packet number) per case after a short legitimate history (0..200 ops) on the real handlers in the stack's dispatch order: ACK into ArcCC / rcvd-journal / sent-journal, packet-number jumps into decode_pn / on_rcvd_pn / ACK generation, NEW_CONNECTION_ID / RETIRE_CONNECTION_ID / active_connection_id_limit into the cid managers on a shared router, stream / flow-control / stream-count frames into DataStreams + FlowController, CRYPTO offsets into the crypto stream; the field under test takes values from {0, 1, state boundary +-1, 2^8..2^22 ladder, 2^31+-1, 2^62-1}; per handler the bytes allocated (exact) and the thread CPU time are metered along the ladder with state and frame size constant; expected error kinds from an RFC 9000 reference model of the state; non-trivial = a history preceded the forged frame; distinct = hash of field, answers, emitted frames per probe");
             p.assumptions = vec!["work thresholds: memory >= 1 MiB and > 256 B per (frame byte + state entry) + 64 KiB and >= 64x the ladder bottom; CPU >= 2 ms for the chain and > 1 us per unit + 0.5 ms, named handler >= 0.5 ms and >= 64x its ladder bottom, minimum of 3..8 readings", "values above 2^22 are only sent to handler chains the ladder showed to be value-independent", "frames are handed over as decrypted payload: packet protection and assembly are not part of the metered work"];
         }
         other => die(&format!("no check for property {other}")),
